@@ -55,6 +55,35 @@ func RacePass(scs []*Scenario, backends []string, rounds int) (runs int) {
 			mu.Unlock()
 		}
 	})
+	// DB.Close racing with running operations (the handle is discarded afterwards)
+	for _, b := range backends {
+		for r := 0; r < 3; r++ {
+			in := drv.MustOpen(b)
+			drv.Exec(in, m.Op{K: "createColl", Coll: "a"})
+			drv.Exec(in, m.Op{K: "insert", Coll: "a", Docs: DefaultDataset()})
+			var wg sync.WaitGroup
+			for t := 0; t < 3; t++ {
+				wg.Add(1)
+				go func(t int) {
+					defer wg.Done()
+					for i := 0; i < 20; i++ {
+						drv.Exec(in, m.Op{K: "count", Q: &m.Q{Coll: "a", Crit: m.Leaf("gte", "x", int64(t))}})
+						drv.Exec(in, m.Op{K: "insert", Coll: "a", Docs: []m.Doc{{"x": int64(i)}}})
+					}
+				}(t)
+			}
+			wg.Add(1)
+			go func() {
+				defer wg.Done()
+				db := in.DB
+				safely(func() { db.Close() })
+				safely(func() { db.Close() })
+			}()
+			wg.Wait()
+			in.Abandon()
+			runs++
+		}
+	}
 	return runs
 }
 
